@@ -29,6 +29,7 @@ pub fn dispatch(ctx: &Ctx, rest: &[String]) -> i32 {
         "C14" => c14::run(ctx),
         "C15" => c15::run(ctx),
         "C16" => c16::run(ctx),
+        "C17" => c17::run(ctx),
         "C06-child" => c06::child(ctx, rest),
         other => {
             eprintln!("unknown property {other}");
@@ -192,5 +193,6 @@ pub mod c13;
 pub mod c14;
 pub mod c15;
 pub mod c16;
+pub mod c17;
 pub mod hist;
 pub mod histcheck;
